@@ -373,7 +373,16 @@ def model_slice_len(ex, path, frame, callee, args, dest_ty):
     return ex.ctx.sym(ex.ctx.fresh("len"), "usize")
 
 
+def model_opt_is(ex, path, frame, callee, args, dest_ty):
+    o = args[0].cell.val if isinstance(args[0], Ref) else args[0]
+    if not isinstance(o, Agg):
+        return NotImplemented
+    want = 0 if callee.endswith("is_none") else 1
+    return Leaf(fold(f"(= {o.get_disc().term} {bvconst(want, 64)})"), "bool")
+
+
 COMMON_MODELS = {
+    r"^Option::<[^()]*>::is_(none|some)$": model_opt_is,
     r"(^|::)(min|max)(::<.*>)?$": model_min_max,
     r"(<impl \[T\]>|slice::<impl \[.*\]>|^core::slice::<impl \[.*\]>)::len$": model_slice_len,
     r"^Result::<.*>::map_err::<": model_map_err,
@@ -1419,7 +1428,7 @@ def c02_abort_marks(env, ob):
     return trace_obligation(env, ob, ctx, res, bad, "abort() returns Ok without marking the transaction in the persistent bitmap")
 
 
-@obligation(id="C09.allocated_page_is_dirty", funcs="Pager::allocate_page",
+@obligation(id="C09.allocated_page_is_dirty", also="C11,C12", funcs="Pager::allocate_page",
             bounds="every path of Pager::allocate_page<P>; callees uninterpreted", native="c09_recycled_root_survives_reopen")
 def c09_alloc_dirty(env, ob):
     """A page handed out by allocate_page (fresh OR recycled from the free list) must be marked dirty, otherwise an object
@@ -2367,6 +2376,227 @@ def c16_eval_arms(env, ob):
 
 
 # ---------------------------------------------------------------------------------------------------------------------
+# C11: one step of the free list (Pager::allocate_page / dealloc_page) from an arbitrary header state
+# ---------------------------------------------------------------------------------------------------------------------
+PAGER = "io/pager.rs"
+
+
+def _opt_is(ev, some):
+    r = ev["ret"]
+    return f"(= {r.get_disc().term} {bvconst(1 if some else 0, 64)})"
+
+
+def _arg_is_none(a):
+    return isinstance(a, Agg) and a.disc is not None and mirsmt.const_of(a.disc.term) == 0
+
+
+def _arg_some_payload(a):
+    """term of x when the argument is a constructed Some(x), else None"""
+    if isinstance(a, Agg) and a.disc is not None and mirsmt.const_of(a.disc.term) == 1 and "Some" in a.variants:
+        v = a.variants["Some"].val.fields.get("0")
+        if v is not None and isinstance(v.val, Leaf):
+            return v.val.term
+    return None
+
+
+@obligation(id="C11.alloc_step", funcs="Pager::allocate_page",
+            bounds="every path of Pager::allocate_page<P> from an arbitrary page-zero state (head / tail of the free list "
+                   "symbolic); cache, page I/O and header accessors uninterpreted",
+            native="c11_free_list_step")
+def c11_alloc_step(env, ob):
+    """Free pages are reused before the file grows, and popping the head keeps head / tail consistent:
+    the new head is the popped page's successor, and the tail is cleared exactly when the popped page was the tail."""
+    ctx, f, args, res = explore(env, PAGER, "allocate_page", loop_bound=1)
+
+    def bad(path, rv):
+        if path.panics or rv is None or not isinstance(rv, Agg):
+            return None
+        isok = ret_is_ok(rv)
+        first = _evs(path, r"Pager::first_free_page$")
+        grow = _evs(path, r"Pager::get_next_page$")
+        if not first:
+            return ("page_allocated_without_consulting_the_free_list", isok) if grow else None
+        head_some = _opt_is(first[0], True)
+        if grow:
+            return ("file_grows_although_the_free_list_is_not_empty", conj([isok, head_some]))
+        # reuse path: everything below is about Ok results that hand out the head of the list
+        head = ctx.smtname(first[0]["ret"].name + "@Some.0")
+        rd = _evs(path, r"Pager::with_page::<")
+        setf = _evs(path, r"Pager::set_first_free_page$")
+        if not rd or not setf:
+            return ("head_popped_without_linking_its_successor_as_new_head", isok)
+        if not (isinstance(setf[0]["args"][1], Agg) and (setf[0]["args"][1].name or "").startswith(rd[0]["ret"].name + "@Ok")):
+            return ("new_head_is_not_the_successor_read_from_the_popped_page", isok)
+        if rd[0]["argdesc"][1] != head:
+            return ("successor_read_from_a_page_that_is_not_the_head", isok)
+        last = _evs(path, r"Pager::last_free_page$")
+        setl = _evs(path, r"Pager::set_last_free_page$")
+        if setl:
+            if not _arg_is_none(setl[0]["args"][1]):
+                return ("tail_overwritten_with_a_page_while_popping", isok)
+            if not last:
+                return ("tail_cleared_without_comparing_it_with_the_popped_page", isok)
+            lt = ctx.smtname(last[0]["ret"].name + "@Some.0")
+            return ("tail_cleared_although_the_popped_page_is_not_the_tail", conj([isok, f"(not (and {_opt_is(last[0], True)} (= {lt} {head})))"]))
+        if last:
+            lt = ctx.smtname(last[0]["ret"].name + "@Some.0")
+            return ("popped_page_stays_recorded_as_tail", conj([isok, _opt_is(last[0], True), f"(= {lt} {head})"]))
+        return ("head_popped_without_looking_at_the_tail", isok)
+    a = trace_obligation(env, ob, ctx, res, bad, "one allocation step breaks the free-list discipline")
+
+    def bad_reinit(path, rv):
+        if path.panics or rv is None or not isinstance(rv, Agg) or _evs(path, r"Pager::get_next_page$"):
+            return None
+        if not _evs(path, r"Pager::first_free_page$"):
+            return None
+        isok = ret_is_ok(rv)
+        if not _evs(path, r"PageCache::remove$") or not _evs(path, r"MemFrame::reinit_as::"):
+            return ("reused_page_not_reinitialised_as_the_requested_kind", isok)
+        return None
+    b = trace_obligation(env, ob, ctx, res, bad_reinit, "a reused page keeps its free-list header")
+    return merge(a, b)
+
+
+@obligation(id="C11.dealloc_step", funcs="Pager::dealloc_page,Pager::dealloc_page::{closure#0}",
+            bounds="every path of Pager::dealloc_page<P> from an arbitrary page-zero state; cache, page I/O and header "
+                   "accessors uninterpreted; the closure that links the old tail is executed from MIR",
+            native="c11_free_list_step")
+def c11_dealloc_step(env, ob):
+    """A released page becomes the new tail: the old tail (if any) points at it, the head is set when the list was empty
+    and only then, page zero is refused before anything changes, and the page itself is rewritten as a free page."""
+    ctx, f, args, res = explore(env, PAGER, "dealloc_page", loop_bound=1)
+    pid = args[1].term
+
+    def bad(path, rv):
+        if path.panics or rv is None or not isinstance(rv, Agg):
+            return None
+        isok = ret_is_ok(rv)
+        first = _evs(path, r"Pager::first_free_page$")
+        last = _evs(path, r"Pager::last_free_page$")
+        setf = _evs(path, r"Pager::set_first_free_page$")
+        setl = _evs(path, r"Pager::set_last_free_page$")
+        link = _evs(path, r"Pager::with_page_mut::<")
+        if not first or not last:
+            return ("page_released_without_reading_head_and_tail", isok)
+        if not setl or _arg_some_payload(setl[0]["args"][1]) != pid:
+            return ("released_page_not_recorded_as_the_new_tail", isok)
+        if setf:
+            if _arg_some_payload(setf[0]["args"][1]) != pid:
+                return ("head_set_to_something_else_than_the_released_page", isok)
+            # the head may only be replaced when the list was empty
+            return ("head_overwritten_although_the_list_was_not_empty", conj([isok, _opt_is(first[0], True)]))
+        lt = ctx.smtname(last[0]["ret"].name + "@Some.0")
+        if link:
+            if link[0]["argdesc"][1] != lt:
+                return ("successor_link_written_to_a_page_that_is_not_the_old_tail", isok)
+        else:
+            return ("old_tail_not_linked_to_the_released_page", conj([isok, _opt_is(last[0], True)]))
+        return ("empty_list_gets_no_head", conj([isok, _opt_is(first[0], False)]))
+    a = trace_obligation(env, ob, ctx, res, bad, "one release step breaks the free-list discipline")
+
+    def bad_zero(path, rv):
+        if path.panics or rv is None or not isinstance(rv, Agg):
+            return None
+        touched = _evs(path, r"Pager::set_(first|last)_free_page$|Pager::with_page_mut::<|MemFrame::dealloc$")
+        if touched:
+            zero = [n for n in ctx.decls if n.startswith("|const:") and "PAGE_ZERO" in n]
+            if not zero:
+                return ("page_zero_can_be_released", None)     # the id is never compared with PAGE_ZERO
+            return ("page_zero_can_be_released", f"(= {pid} {zero[0]})")
+        return None
+    b = trace_obligation(env, ob, ctx, res, bad_zero, "page zero reaches the free list")
+
+    def bad_image(path, rv):
+        if path.panics or rv is None or not isinstance(rv, Agg):
+            return None
+        isok = ret_is_ok(rv)
+        rem = _evs(path, r"PageCache::remove$")
+        if not rem:
+            return ("released_page_never_taken_out_of_the_cache", isok)
+        got = _opt_is(rem[0], True)
+        if not _evs(path, r"MemFrame::dealloc$"):
+            return ("released_page_keeps_its_old_header", conj([isok, got]))
+        if not _evs(path, r"MemFrame::with_bytes::<|Pager::write_block$") and not _evs(path, r"MemFrame::mark_dirty$"):
+            return ("free_page_image_neither_written_nor_marked_dirty", conj([isok, got]))
+        return None
+    c = trace_obligation(env, ob, ctx, res, bad_image, "the released page's free image is lost")
+
+    # the closure handed to with_page_mut stores Some(released id) in the old tail's `next` (executed from its MIR)
+    d = None
+    try:
+        f2 = env.mir.find(PAGER, "dealloc_page::{closure#0}")
+        ctx2 = mirsmt.Ctx()
+        rid = ctx2.declare("released_id", "u64")
+        clo = Agg(ctx2, None, "closure")
+        clo.fields["0"] = Cell(Ref(Cell(rid)))
+        hdr = Cell(Agg(ctx2, "old_tail_header", "storage::page::OverflowPageHeader"))
+
+        def m_meta(ex, path, frame, callee, args_, dest_ty):
+            return Ref(hdr, True)
+        mdl = dict(COMMON_MODELS)
+        mdl[r"MemBlock::<OverflowPageHeader>::metadata_mut$"] = m_meta
+        ex2 = mirsmt.Executor(env.mir, ctx2, models=mdl, loop_bound=1)
+        res2 = ex2.run(f2, [clo, ctx2.sym("page", f2.params[1][1])])
+        nxt = str(env.struct_fields("storage/page.rs", "OverflowPageHeader").index("next"))
+        ok = bool(res2)
+        for path, rv in res2:
+            # deepcopy on fork may have replaced hdr: look the header up through the final frame's reference
+            h = None
+            for e_ in (path.final_frame.cells.values() if getattr(path, "final_frame", None) else []):
+                v = e_.val
+                if isinstance(v, Ref) and isinstance(v.cell.val, Agg) and v.cell.val.name == "old_tail_header":
+                    h = v.cell.val
+            h = h or hdr.val
+            v = h.fields.get(nxt)
+            if v is None or _arg_some_payload(v.val) != rid.term:
+                ok = False
+        d = result(ob, "discharged" if ok else "violated", failed=[] if ok else ["old_tail_link_is_not_some_released_id"], paths=len(res2))
+    except Unsupported as e:
+        d = result(ob, "inconclusive", reason="closure of dealloc_page: " + str(e)[:120])
+    return merge(merge(merge(a, b), c), d)
+
+
+@obligation(id="C11.merged_sibling_is_released", also="C10", funcs="Btree::balance (the 'free unused pages' loop)",
+            bounds="ONE iteration of the loop of Btree::balance that drops surplus siblings, from an arbitrary state of "
+                   "every local (region of the MIR body between the pop_back call and the loop condition); callees "
+                   "uninterpreted", native="c11_merge_releases_page")
+def c11_merged_sibling(env, ob):
+    """Rebalancing that needs fewer pages than it loaded unlinks the surplus siblings from the tree: each of them must be
+    handed to Pager::dealloc_page in the same iteration, otherwise the page belongs to nobody."""
+    f = env.mir.find("tree/bplustree.rs", "balance")
+    start = [bb for bb, st in f.blocks.items() if any("::pop_back(" in x and "Position<" in x for x in st)]
+    if len(start) != 1:
+        raise Unsupported(f"'free unused pages' loop of Btree::balance not found ({len(start)} pop_back sites)")
+    start = start[0]
+    heads = [bb for bb, st in f.blocks.items()
+             if any(x.strip().startswith("switchInt") and re.search(r"\b" + start + r"\b", x) for x in st)]
+    if len(heads) != 1:
+        raise Unsupported("loop condition block of the 'free unused pages' loop not found")
+    ctx = mirsmt.Ctx()
+    ex = mirsmt.Executor(env.mir, ctx, models=dict(COMMON_MODELS), loop_bound=1, max_paths=5000)
+    res = ex.run(f, [ctx.sym("p%d" % i, t) for i, (n, t) in enumerate(f.params)], start_bb=start, stop_bbs=heads)
+
+    def bad(path, rv):
+        if path.panics or not path.stopped:
+            return None
+        ent = _evs(path, r"Position::<.*>::entry$")
+        de = _evs(path, r"Pager::dealloc_page::<")
+        if not ent:
+            return ("surplus_sibling_dropped_without_reading_its_page_id", None)
+        if not de:
+            return ("unlinked_sibling_is_never_released", None)
+        a = de[0]["args"][1]
+        if not (isinstance(a, Leaf) and isinstance(ent[0]["ret"], Leaf) and a.term == ent[0]["ret"].term):
+            return ("released_page_is_not_the_unlinked_sibling", None)
+        return None
+    done = [p for p, rv in res if p.stopped]
+    if not done:
+        return result(ob, "inconclusive", reason="vacuity: no path completes an iteration of the loop", paths=len(res))
+    return trace_obligation(env, ob, ctx, [(p, Unit() if p.stopped else rv) for p, rv in res], bad,
+                            "a sibling unlinked by rebalancing is not put on the free list", cuts_ok=True)
+
+
+# ---------------------------------------------------------------------------------------------------------------------
 # C16: every argument / column index in the scalar-function implementations and in eval_column is guarded by a length test
 # ---------------------------------------------------------------------------------------------------------------------
 def _guarded_index_models():
@@ -2453,6 +2683,105 @@ def c16_arg_index(env, ob):
                       cex={"what": "an index into the argument vector / row is reachable with the index >= length", "functions": bad}, **kw)
     if inc:
         return result(ob, "inconclusive", reason="; ".join(inc)[:300], **kw)
+    return result(ob, "discharged", **kw)
+
+
+# ---------------------------------------------------------------------------------------------------------------------
+# C16: the lexer's loops stop at the end of the input
+# ---------------------------------------------------------------------------------------------------------------------
+LEXER = "sql/parser/lexer.rs"
+
+
+def loop_heads(f):
+    """blocks of a MIR body that are the target of a back edge (DFS from bb0)"""
+    succ = {}
+    for bb, st in f.blocks.items():
+        outs = []
+        for x in st:
+            x = x.strip()
+            if "-> " in x or x.startswith("goto") or x.startswith("switchInt"):
+                outs += [t for t in re.findall(r"\bbb\d+\b", x.split("->", 1)[-1]) ]
+        # unwind / cleanup edges are not control flow of interest
+        outs = [t for t in outs if not any(re.search(r"unwind: " + t + r"\b", y) for y in st)]
+        succ[bb] = outs
+    heads, color = set(), {}
+    stack = [("bb0", iter(succ.get("bb0", [])))]
+    color["bb0"] = 1
+    while stack:
+        node, it = stack[-1]
+        nxt = next(it, None)
+        if nxt is None:
+            color[node] = 2
+            stack.pop()
+            continue
+        if color.get(nxt) == 1:
+            heads.add(nxt)
+        elif nxt not in color and nxt in succ:
+            color[nxt] = 1
+            stack.append((nxt, iter(succ[nxt])))
+    return sorted(heads, key=lambda b: int(b[2:]))
+
+
+@obligation(id="C16.lexer_loops_stop_at_end_of_input", funcs="Lexer::next_token,Lexer::skip_whitespace,Lexer::read_string,"
+            "Lexer::read_number,Lexer::read_identifier,Lexer::advance,Lexer::peek",
+            bounds="every loop of the five scanning functions, ONE round from the loop head in an arbitrary state of the "
+                   "locals with the lexer at the end of its input (position >= input.len(), current_char = None); "
+                   "Lexer::advance / peek inlined from MIR",
+            native="c16_comment_at_end_of_statement")
+def c16_lexer_eof(env, ob):
+    """At the end of the input `advance` leaves the lexer where it is (current_char stays None), so a loop that comes back
+    to its head there comes back forever: the statement never returns (a trailing `--` comment without newline, an
+    unterminated string, a number or identifier that ends the text)."""
+    names = env.struct_fields(LEXER, "Lexer")
+    ix = {n: str(i) for i, n in enumerate(names)}
+    bad, inc, total, nq, nloops = [], [], 0, 0, 0
+    for fn in ("next_token", "skip_whitespace", "read_string", "read_number", "read_identifier"):
+        f = env.mir.find(LEXER, fn, r"&mut Lexer\)")
+        for head in loop_heads(f):
+            nloops += 1
+            ctx = mirsmt.Ctx()
+            lx = Agg(ctx, "lexer", "sql::parser::lexer::Lexer")
+            none = Agg(ctx, None, "std::option::Option<char>")
+            none.disc = Leaf(bvconst(0, 64), "isize")
+            lx.fields[ix["current_char"]] = Cell(none)
+            pos = lx.field_cell(ix["position"], "usize").val
+            ln = ctx.declare("input_len", "usize")
+
+            def m_len(ex, path, frame, callee, args, dest_ty, ln=ln):
+                return ln
+            mdl = dict(COMMON_MODELS)
+            mdl[r"^Vec::<char>::len$"] = m_len
+            inline = {r"^Lexer::advance$": (LEXER, "advance", None), r"^Lexer::peek$": (LEXER, "peek", None)}
+            ex = mirsmt.Executor(env.mir, ctx, inline=inline, models=mdl, loop_bound=2, max_paths=20000)
+            try:
+                res = ex.run(f, [Ref(Cell(lx), True)], start_bb=head, stop_bbs=[head])
+            except Unsupported as e:
+                inc.append(f"{fn}@{head}: {str(e)[:100]}")
+                continue
+            total += len(res)
+            pre = [f"(bvuge {pos.term} {ln.term})", f"(bvult {pos.term} {bvconst(1 << 62, 64)})"]
+            again = [conj(pre + p.pc) for p, rv in res if p.stopped or p.cut]
+            left = [conj(pre + p.pc) for p, rv in res if not p.stopped and not p.cut and not p.panics]
+            if not left:
+                inc.append(f"{fn}@{head}: vacuity (no path leaves the loop)")
+                continue
+            chk = env.check(ctx, ([disj(again)] if again else []) + [disj(left)])
+            nq += len(chk)
+            if chk[-1]["verdict"] != "sat":
+                inc.append(f"{fn}@{head}: vacuity ({chk[-1]['verdict']})")
+            if again:
+                if chk[0]["verdict"] == "sat":
+                    bad.append(fn)
+                elif chk[0]["verdict"] != "unsat":
+                    inc.append(f"{fn}@{head}: {chk[0]['verdict']}")
+    kw = dict(paths=total, queries=nq, events={"loops": nloops})
+    if bad:
+        return result(ob, "violated", failed=[f"loop_runs_on_at_end_of_input[{b}]" for b in sorted(set(bad))],
+                      cex={"what": "a loop of the lexer comes back to its head although the input is exhausted", "functions": bad}, **kw)
+    if inc:
+        return result(ob, "inconclusive", reason="; ".join(inc)[:300], **kw)
+    if not nloops:
+        return result(ob, "inconclusive", reason="vacuity: no loop found in the lexer functions", **kw)
     return result(ob, "discharged", **kw)
 
 
